@@ -38,7 +38,7 @@ VALIDATION = ("CommandDoesNotExist", "DuplicateResult", "MissingParameters", "No
               "InvalidRelativePath", "ResultDoesNotExist", "ResultTypeNotValid", "ResultNotFuzzy", "ResultIsFuzzy")
 RAW_KINDS = ["int", "float", "numstr", "word", "boolword", "zero", "list", "nested", "tuple", "emptylist", "ref:nf", "ref:fz", "ref:bool", "ref:writer",
              "unknown", "dtype-name", "existing-path", "missing", "extra", "inf-word", "nan-word", "huge-exponent", "list-of-inf",
-             "fraction", "slash-zero", "percent", "list-of-slash-zero"]  # text that looks like arithmetic: not a number
+             "fraction", "slash-zero", "percent", "list-of-slash-zero", "list-of-two-letter-words", "extra-outfilename", "extra-newfieldname"]  # text that looks like arithmetic: not a number
 _LOG = []
 
 
@@ -78,14 +78,15 @@ def _raw(rk):
             "ref:bool": ("bare", "PV"), "ref:writer": ("bare", "W"), "unknown": ("bare", "NoSuchResult"), "dtype-name": ("bare", "Integer"),
             "existing-path": ("q", "input.csv"), "inf-word": ("bare", "inf"), "nan-word": ("q", "nan"), "huge-exponent": ("bare", "1e999"),
             "list-of-inf": ("list", [("int", "1"), ("bare", "-Infinity")]),
-            "fraction": ("q", "1/2"), "slash-zero": ("q", "1/0"), "percent": ("q", "50%"), "list-of-slash-zero": ("list", [("int", "1"), ("q", "0/0")])}[rk]
+            "fraction": ("q", "1/2"), "slash-zero": ("q", "1/0"), "percent": ("q", "50%"), "list-of-slash-zero": ("list", [("int", "1"), ("q", "0/0")]),
+            "list-of-two-letter-words": ("list", [("bare", "ab"), ("bare", "cd")])}[rk]
 
 
 def expect(kind, rk, required):
     """-> ("accept",) | ("reject", (classes)) | ("unspec",)"""
     if rk == "missing":
         return ("reject", ("MissingParameters",)) if required else ("accept",)
-    if rk == "extra":
+    if rk in ("extra", "extra-outfilename", "extra-newfieldname"):
         return ("reject", ("NoSuchParameter",))
     PNV = ("ParameterNotValid",)
     if rk in ("inf-word", "nan-word", "huge-exponent"):
@@ -98,6 +99,9 @@ def expect(kind, rk, required):
         rk = "list"
     if rk in ("fraction", "slash-zero", "percent"):
         rk = "word"
+    if rk == "list-of-two-letter-words":
+        # (a list of two-letter words is a list, never a tuple of key: value pairs; for other kinds it adds nothing to "list")
+        return ("reject", PNV) if kind == "Tuple" else ("unspec",)
     if rk == "list-of-slash-zero":
         if isinstance(kind, tuple) and kind[0] == "L" and kind[1] == "Num":
             return ("reject", PNV)
@@ -355,6 +359,12 @@ def _run_matrix(case):
                 pass
             elif rk == "extra":
                 args = list(base) + [("BogusParameter", ("int", "1"))]
+            elif rk in ("extra-outfilename", "extra-newfieldname"):
+                # the two bookkeeping arguments of EEMS 2.0 on a command that does not declare them (MPilot syntax: not stripped)
+                xn = "OutFileName" if rk == "extra-outfilename" else "NewFieldName"
+                if any(pn == xn for pn, _k, _r in plist) or pname != plist[0][0]:
+                    continue
+                args = list(base) + [(xn, ("q", "x_out.csv") if xn == "OutFileName" else ("bare", "Renamed"))]
             else:
                 args = args + [(pname, _raw(rk))]
                 if not any(a[0] == pname for a in base) and False:
@@ -380,7 +390,7 @@ def _run_matrix(case):
                 e = ob["exc"]
                 if ob["cls"] == "MissingParameters" and (pname not in set(e.parameters) or e.command not in (cmd, "T")):  # the command may be named by its class or by its result name
                     viols.append(V("C12:%s:error-attribute:MissingParameters" % cmd, "%s: MissingParameters names %r of %r" % (what, e.parameters, e.command), **tag))
-                if ob["cls"] == "NoSuchParameter" and (e.parameter != "BogusParameter" or e.command not in (cmd, "T")):
+                if ob["cls"] == "NoSuchParameter" and (e.parameter != {"extra-outfilename": "OutFileName", "extra-newfieldname": "NewFieldName"}.get(rk, "BogusParameter") or e.command not in (cmd, "T")):
                     viols.append(V("C12:%s:error-attribute:NoSuchParameter" % cmd, "%s: NoSuchParameter names %r of %r" % (what, e.parameter, e.command), **tag))
                 if ob["cls"] == "ResultDoesNotExist" and e.result != _raw(rk)[1]:
                     viols.append(V("C12:%s:error-attribute:ResultDoesNotExist" % cmd, "%s: ResultDoesNotExist names %r" % (what, e.result), **tag))
